@@ -13,7 +13,8 @@ dir=$(head -5 "$d/demo_test.go" | grep -o 'dir: *[^ ]*' | head -1 | sed 's/dir: 
 [ -z "$dir" ] && dir=$(python3 -c "import json,sys;print(json.load(open(sys.argv[1])).get('demo_pkg','').strip('./'))" "$d/meta.json" 2>/dev/null)
 [ -z "$dir" ] && { echo "REJECTED no dir comment in demo and no demo_pkg in meta.json"; exit 1; }
 tname=$(grep -o 'func TestSeeded[A-Za-z0-9_]*' "$d/demo_test.go" | head -1 | sed 's/func //')
-[ -z "$tname" ] && tname=$(grep -o 'func Test[A-Za-z0-9_]*' "$d/demo_test.go" | head -1 | sed 's/func //')
+# demos without the TestSeeded prefix: run every test of the file (a re-exec helper test skips itself)
+[ -z "$tname" ] && tname="($(grep -o '^func Test[A-Za-z0-9_]*' "$d/demo_test.go" | sed 's/func //' | paste -sd'|'))"
 git apply "$d/patch.diff" || { echo "REJECTED patch does not apply"; exit 1; }
 go build ./... >/dev/null 2>&1 || { echo "REJECTED does not build"; exit 1; }
 pk="$@"; [ -z "$pk" ] && pk="./$dir/..."
